@@ -1,5 +1,7 @@
 package main
 
+import "strconv"
+
 func init() { families["c12"] = genC12 }
 
 func genC12(r *rng, thorough bool) {
@@ -15,6 +17,22 @@ func genC12(r *rng, thorough bool) {
 	for i := 0; i < n; i++ {
 		rs := verbStream(r, 8)
 		f := r.pick(fl)
+		// regex modes; wide records interleave the regex groups beyond the insertion-sort threshold of pdqsort
+		wide := verbStream(r, 4)
+		for j := range wide {
+			var rec record
+			w := 4 + r.intn(28)
+			for k := 0; k < w; k++ {
+				rec = append(rec, field{r.pick([]string{"a", "b", "c", "x"}) + strconv.Itoa(k), r.pick([]string{"1", "2", "pan"})})
+			}
+			wide[j] = rec
+		}
+		rx := r.pick([]string{"^a", "^b,^a", "^[ab],x", "\"^A\"i,^c", "1$,^a", "^b,^a,^c", "[0-9][0-9],^a", "^x|^c,^b"})
+		for _, st := range [][]record{rs, wide} {
+			emit([]string{"cut", "-r", "-f", rx}, st)
+			emit([]string{"cut", "-o", "-r", "-f", rx}, st)
+			emit([]string{"cut", "-x", "-r", "-f", rx}, st)
+		}
 		emit([]string{"cut", "-f", f}, rs)
 		emit([]string{"cut", "-o", "-f", f}, rs)
 		emit([]string{"cut", "-x", "-f", f}, rs)
